@@ -47,17 +47,17 @@ Section All.
     - apply (defined_of_wz index spol ppol phis ths ls lp ws wp pp Hls Hlp (range_pi ths Hth) Hw).
   Qed.
 
-  (* Clause: momentum.  Co-propagating, signal polar angle in [0, pi/2), closing vector forward. *)
-  Lemma parallel i : 0 <= ths -> 0 < vz q ->
+  (* Clause: momentum.  Co-propagating, signal polar angle in (-pi/2, pi/2), closing vector forward. *)
+  Lemma parallel i : 0 < vz q ->
     optimum_idler index pm false signal pump pp = Some i ->
     optimum_defined index signal pump pp /\
     b_dir i = vscale (/ vnorm q) q /\ vcross (b_dir i) q = vzero /\ 0 < vdot (b_dir i) q /\
     vcross (delta_k_model index (b_omega signal) (b_omega i) signal i pump pp) (b_dir i) = vzero.
   Proof.
-    intros H0 Hz Hs. destruct (some_inv false i Hs) as [Hlt ->].
+    intros Hz Hs. destruct (some_inv false i Hs) as [Hlt ->].
     destruct (closing_nonzero ltac:(lra)) as [Hn Hd].
     pose proof (idler_parallel_forward index pm spol ppol phis ths ls lp ws wp pp Hls Hlp (range_pi ths Hth) Hpp false
-                  (cos_pos_of_range ths Hth) eq_refl H0 Hz) as Hdir.
+                  (cos_pos_of_range ths Hth) eq_refl Hz) as Hdir.
     fold signal pump q in Hdir.
     assert (Hnp : 0 < vnorm q) by (apply sqrt_lt_R0; exact Hn).
     split; [exact Hd | split; [exact Hdir|]]. rewrite Hdir. split; [apply vcross_scale_self | split].
@@ -66,13 +66,13 @@ Section All.
   Qed.
 
   (* the counter-propagating branch closes the triangle when the closing vector points backward *)
-  Lemma parallel_counter i : 0 <= ths -> vz q < 0 ->
+  Lemma parallel_counter i : vz q < 0 ->
     optimum_idler index pm true signal pump pp = Some i ->
     b_dir i = vscale (/ vnorm q) q.
   Proof.
-    intros H0 Hz Hs. destruct (some_inv true i Hs) as [Hlt ->].
+    intros Hz Hs. destruct (some_inv true i Hs) as [Hlt ->].
     apply (idler_parallel_backward index pm spol ppol phis ths ls lp ws wp pp Hls Hlp (range_pi ths Hth) Hpp true
-             (cos_pos_of_range ths Hth) eq_refl H0 Hz).
+             (cos_pos_of_range ths Hth) eq_refl Hz).
   Qed.
 
   (* Clause: collinear signal -> collinear idler (whenever the closing vector has a longitudinal component) *)
@@ -110,18 +110,18 @@ Lemma direction pol phi theta lambda w :
   vnorm2 (b_dir (beam_new pol phi theta lambda w)) = 1.
 Proof. unfold beam_new; cbn [b_dir]. rewrite beam_new_direction_eq. split; [reflexivity | apply polar_unit]. Qed.
 
-Lemma nonvacuous :
+Lemma nonvacuous_at (t : R) : - (1 / 10) <= t <= 1 / 10 ->
   let index := fun (_ : R) (_ : vec) (_ : polarization) => 3 / 2 in
-  (0 < 1 /\ 0 < 2 /\ pp_defined PPOff /\ - (PI / 2) < 1 / 10 < PI / 2 /\ 0 <= 1 / 10) /\
-  0 < vz (closing_vector index (beam_new Ordinary 0 (1 / 10) 2 (1, 1)) (pump_new Ordinary 1 (1, 1)) PPOff) /\
-  exists i, optimum_idler index Type2_e_eo false (beam_new Ordinary 0 (1 / 10) 2 (1, 1)) (pump_new Ordinary 1 (1, 1)) PPOff = Some i.
+  (0 < 1 /\ 0 < 2 /\ pp_defined PPOff /\ - (PI / 2) < t < PI / 2) /\
+  0 < vz (closing_vector index (beam_new Ordinary 0 t 2 (1, 1)) (pump_new Ordinary 1 (1, 1)) PPOff) /\
+  exists i, optimum_idler index Type2_e_eo false (beam_new Ordinary 0 t 2 (1, 1)) (pump_new Ordinary 1 (1, 1)) PPOff = Some i.
 Proof.
-  intros index.
-  assert (Hth : - (PI / 2) < 1 / 10 < PI / 2) by (pose proof PI_RGT_0; pose proof PI2_3_2; unfold PI2 in *; lra).
+  intros Ht index.
+  assert (Hth : - (PI / 2) < t < PI / 2) by (pose proof PI_RGT_0; pose proof PI2_3_2; unfold PI2 in *; lra).
   split; [repeat split; try lra; exact I|]. split.
-  - change (0 < vz (closing_vector index (sigb Ordinary 0 (1 / 10) 2 (1, 1)) (pumpb Ordinary 1 (1, 1)) PPOff)).
-    rewrite (closing_z index Ordinary Ordinary 0 (1 / 10) 2 1 (1, 1) (1, 1) PPOff ltac:(lra) ltac:(lra) I).
-    apply Rmult_lt_0_compat; [apply (Kq_pos (1 / 10) 2 ltac:(lra) (range_pi _ Hth))|].
-    unfold w_z, n_p, n_s, kpp, refractive_index, beam_refractive_index, index, pp_k_pp. pose proof (COS_bound (1 / 10)). lra.
-  - eexists. apply (optimum_idler_some index Type2_e_eo Ordinary Ordinary 0 (1 / 10) 2 1 (1, 1) (1, 1) PPOff); lra.
+  - change (0 < vz (closing_vector index (sigb Ordinary 0 t 2 (1, 1)) (pumpb Ordinary 1 (1, 1)) PPOff)).
+    rewrite (closing_z index Ordinary Ordinary 0 t 2 1 (1, 1) (1, 1) PPOff ltac:(lra) ltac:(lra) I).
+    apply Rmult_lt_0_compat; [apply (Kq_pos t 2 ltac:(lra) (range_pi _ Hth))|].
+    unfold w_z, n_p, n_s, kpp, refractive_index, beam_refractive_index, index, pp_k_pp. pose proof (COS_bound t). lra.
+  - eexists. apply (optimum_idler_some index Type2_e_eo Ordinary Ordinary 0 t 2 1 (1, 1) (1, 1) PPOff); lra.
 Qed.
